@@ -221,6 +221,20 @@ pub fn build(seed: u64, tier: Tier) -> Corpus {
         specs.push(s);
     }
     specs.push(crate::arity::spec());
+    // getter family (C16)
+    for (i, text) in crate::getters::HAND_WRITTEN.iter().enumerate() {
+        if let Some(s) = crate::getters::make_spec(&format!("gth{}", i), text) {
+            specs.push(s);
+        }
+    }
+    let n_get = tier.pick(10, 24);
+    let mut rng = Rng::new(sub_seed(seed, "corpus.getter"));
+    for i in 0..n_get {
+        let g = valid_grammar(&mut rng, &Profile::getter(), &mut stats, &mut rejected);
+        if let Some(s) = crate::getters::make_spec(&format!("get{:03}", i), &g.text) {
+            specs.push(s);
+        }
+    }
     {
         let mut s = Spec::new("subinput", "subinput", &subinput_grammar());
         s.forms = true;
